@@ -30,6 +30,11 @@ func corpusC07() []*case07 {
 			{Name: "n0", Cap: flatNode(2, 1000), Usage: emptyUsage(), Extra: []*int{ip(math.MaxInt)}},
 			{Name: "n1", Cap: flatNode(2, 1000), Usage: emptyUsage(), Extra: []*int{ip(5)}},
 			{Name: "n2", Cap: flatNode(2, 1000), Usage: emptyUsage(), Extra: []*int{ip(7)}}}},
+		// a node list naming nodes twice (and a zero-capacity node twice): the total counts every offered node once
+		{Prop: "C07", Req: reqJ{MR: 250}, Ks: []int{1}, Mentions: []int{1, 0, 1, 2, 2, 0}, Nodes: []node07{
+			{Name: "n0", Cap: flatNode(2, 1000), Usage: emptyUsage(), Extra: []*int{}},
+			{Name: "n1", Cap: flatNode(2, 300), Usage: emptyUsage(), Extra: []*int{}},
+			{Name: "n2", Cap: flatNode(2, 100), Usage: emptyUsage(), Extra: []*int{}}}},
 		{Prop: "C07", Req: reqJ{MR: 100}, Nodes: []node07{
 			{Name: "n0", Cap: flatNode(2, 1000), Usage: emptyUsage(), Extra: []*int{}}}},
 	}
